@@ -110,16 +110,41 @@ Proof.
   - rewrite C20_refuted_subnormal_crowding in Heq. discriminate.
 Qed.
 
-(* What should hold instead, and is NOT proved in general (the adaptation of list labeling to doubles --
-   doubling ranges, thresholds 1.14^i / 1.3^i -- is not shown to find a valid range): existing positions
-   "ordinary" (normal, below 2^53) and fewer than 2^20 rows in all.  Every input the harness explores gets its
-   own certificate through C20_checker_sound instead. *)
+(* (e) Ordinary positions are not safe either: two adjacent doubles in the middle of an aligned block of 512
+       doubles (1 + 256 ulp and its successor), one request between them.  The renumbering itself succeeds, but
+       the final "assert is_valid_range(begin, ..., end)" of prep_inserts_at_index still uses the neighbours'
+       keys from BEFORE the adjustment, and the new key of the inserted row happens to equal the old begin. *)
+Theorem C20_refuted_final_assert_stale_endpoints :
+  prepare_inserts_model [decode 4607182418800017664; decode 4607182418800017665] [decode 4607182418800017665] = Err 2.
+Proof. vm_compute. reflexivity. Qed.
+
+(* So even the restriction to "ordinary" existing positions (normal doubles below 2^53) and small tables does not
+   make the total statement true: *)
 Definition ordinary (x : fl) : Prop := exists u, x = FFin false u /\ 2 ^ 52 <= u < 2 ^ 1127.
 Definition C20_total_restricted_stmt : Prop :=
-  forall orig keys, Pre orig keys -> Forall ordinary orig -> (length orig + length keys < 2 ^ 20)%nat ->
+  forall orig keys, Pre orig keys -> Forall ordinary orig -> lenZ orig + lenZ keys < 2 ^ 20 ->
     exists adj ins, prepare_inserts_model orig keys = Ok (adj, ins) /\ Spec orig keys adj ins.
+Theorem C20_total_restricted_refuted : ~ C20_total_restricted_stmt.
+Proof.
+  intros H.
+  destruct (H [decode 4607182418800017664; decode 4607182418800017665] [decode 4607182418800017665])
+    as (adj & ins & Heq & _).
+  - apply check_pre_sound. vm_compute. reflexivity.
+  - repeat constructor; eexists; (split; [vm_compute; reflexivity|]); split; vm_compute; congruence.
+  - vm_compute. reflexivity.
+  - rewrite C20_refuted_final_assert_stale_endpoints in Heq. discriminate.
+Qed.
 
-(* Proved parts of it.  (i) Appending: the last existing position (0.0 for an empty table) is an integer b,
+(* What remains open, as a statement: on the partial renumbering path (_find_sparse_enough_range /
+   _adjust_range: doubling ranges, thresholds 1.14^i / 1.3^i) the model is NOT proved to return a result that
+   satisfies Spec whenever it returns one.  Every input the harness explores gets its own kernel-checked
+   certificate through C20_checker_sound instead; absence of exceptions is refuted above. *)
+Definition C20_partial_correctness_stmt : Prop :=
+  forall orig keys adj ins, Pre orig keys -> Forall ordinary orig ->
+    prepare_inserts_model orig keys = Ok (adj, ins) -> Spec orig keys adj ins.
+
+(* Proved: total correctness (no exception AND Spec) on the paths that do not renumber partially.
+   (i) Appending: the last existing position (0.0 for an empty table) is an integer b,
    every request lies above every existing row (the default request is +inf), b + count + 1 < 2^53: no
    exception, no adjustment, the new rows get b+1, b+2, ... in request order, and Spec holds. *)
 Theorem C20_total_append_partial : forall orig keys b,
